@@ -9,6 +9,7 @@ import (
 	"go/types"
 	"golang.org/x/tools/go/packages"
 	"sort"
+	"strconv"
 	"strings"
 	"verif/checker/internal/sym"
 
@@ -129,7 +130,7 @@ func isCloseOfChan(n ast.Node) bool {
 func CheckC19(c *Ctx) {
 	run := c.Run
 	run.Technique = "typed-AST + go/cfg path lints on the three reader goroutines and the HTTP client code: bounds guard before indexing a decoded record, close-first defer, error branches leave the loop, must-pass-through of Body.Close on every path after a successful request, status check before decoding, file closed after the reader finished"
-	run.Explanation = "The behaviour of encoding/csv, encoding/json and net/http on arbitrary bytes is NOT decided. Decided are the structural conditions on this repository's own reader code: (0) the reader goroutines and the package functions they call contain no panic source of their own - no type assertion without the ok result, no explicit panic (detector exercised on a built-in example on every run); (a) every index into a decoded CSV record is dominated by a comparison against len(record) that leaves the row loop (a header-less file whose first row is shorter than the struct must not panic in a library goroutine); (b) every reader goroutine defers the close of its channel before anything can return; (c) every error branch inside a reader loop leaves the loop, so only the well-formed prefix is delivered; (d) ReadFromFile closes the file only after the reader goroutine finished; (e) in the Tiingo client a non-200 status returns an error before any decoding and, on every control-flow path after a successful request, the response body is closed (go/cfg may-analysis over each function and each goroutine body); (f) JSONToChan verifies the opening delimiter."
+	run.Explanation = "The behaviour of encoding/csv, encoding/json and net/http on arbitrary bytes is NOT decided. Decided are the structural conditions on this repository's own reader code: (0) the reader goroutines and the package functions they call contain no panic source of their own - no type assertion without the ok result, no explicit panic (detector exercised on a built-in example on every run); (a) every index into a decoded CSV record is dominated by a comparison against len(record) that leaves the row loop (a header-less file whose first row is shorter than the struct must not panic in a library goroutine); (b) every reader goroutine defers the close of its channel before anything can return; (c) every error branch inside a reader loop leaves the loop, so only the well-formed prefix is delivered; (d) ReadFromFile closes the file only after the reader goroutine finished; (e) in the Tiingo client a non-200 status returns an error before any decoding and, on every control-flow path after a successful request, the response body is closed (go/cfg may-analysis over each function and each goroutine body); (f) JSONToChan verifies the opening delimiter. Further: the status condition is decided on eleven representative statuses (200 passes, everything outside 2xx is an error); no JSON document is decoded into a pointer to a pointer; the bounds guard is decided on small index and length values; the opening-delimiter test leaves exactly when the token differs; an error variable is never used (returned, wrapped, logged) in the branch where it is known to be nil; the helpers the readers rely on for closing close what they are given and do nothing else."
 	run.Trusted = []string{"go/types", "go/cfg control-flow graphs", "encoding/csv FieldsPerRecord check (relied upon only for rows after the first)"}
 	hp := c.P.Pkg("helper")
 	ap := c.P.Pkg("asset")
@@ -198,6 +199,46 @@ func CheckC19(c *Ctx) {
 					c.violate("reader/bounds", "helper.(*Csv).ReadFromReader", recName+"["+idx+"]", ix.Pos(),
 						"a decoded CSV record is indexed without a bounds check: a header-less input whose first row has fewer fields than the struct panics in the reader goroutine")
 				}
+				// a column that the header row does not have carries the index -1: some preceding
+				// statement leaves (skips the column) when the index is -1
+				if strings.HasSuffix(idx, "ColumnIndex") {
+					lower := false
+					for i := len(stack) - 1; i >= 0 && !lower; i-- {
+						// the index sits in the branch that is not taken for -1
+						if eif, isIf := stack[i].(*ast.IfStmt); isIf {
+							inThen := ix.Pos() >= eif.Body.Pos() && ix.End() <= eif.Body.End()
+							rc := resolveLocals(hinfo, body, eif.Cond)
+							if v, dec := idxLenCond(hinfo, rc, idx, recName, -1, 3); dec && v != inThen {
+								lower = true
+							}
+						}
+						blk, ok := stack[i].(*ast.BlockStmt)
+						if !ok {
+							continue
+						}
+						for _, s := range blk.List {
+							if s.End() > ix.Pos() {
+								break
+							}
+							is, ok := s.(*ast.IfStmt)
+							if !ok {
+								continue
+							}
+							if _, exits := endsWithExit(is.Body); !exits {
+								continue
+							}
+							rc := resolveLocals(hinfo, body, is.Cond)
+							if v, dec := idxLenCond(hinfo, rc, idx, recName, -1, 3); dec && v {
+								lower = true
+							}
+						}
+					}
+					run.Oblige(lower)
+					if !lower {
+						c.violate("reader/bounds", "helper.(*Csv).ReadFromReader", recName+"["+idx+"] at -1", ix.Pos(),
+							"a column missing from the header row has the index -1 and nothing skips it before the record is indexed: a file without one of the struct's columns panics in the reader goroutine")
+					}
+				}
 				return true
 			})
 		}
@@ -219,6 +260,7 @@ func CheckC19(c *Ctx) {
 		{"helper", "Csv", "ReadFromReader"},
 		{"helper", "", "JSONToChanWithLogger"},
 		{"asset", "TiingoRepository", "GetSince"},
+		{"asset", "SQLRepository", "GetSince"},
 	}
 	for _, r := range readers {
 		fi := c.fn(r.rel, r.typ, r.name)
@@ -271,13 +313,55 @@ func CheckC19(c *Ctx) {
 			if !ok {
 				return true
 			}
+			if r.typ == "SQLRepository" {
+				return true // rows of a database are not "arbitrary bytes": the statement does not cover their scan errors
+			}
 			for _, s := range loop.Body.List {
 				c.errBranchesExit(info, s, site)
 			}
 			return true
 		})
+		// every record that was read is delivered: the row loop of the reader (with the helpers it
+		// calls) sends on the reader's channel in its body - a loop that decodes and never sends
+		// yields an empty stream for any input
+		sendsInLoop := false
+		bodies := []ast.Node{fl.Body}
+		ast.Inspect(fl.Body, func(n ast.Node) bool {
+			if call, ok := n.(*ast.CallExpr); ok {
+				if fn := callee(info, call); fn != nil && !fn.Exported() {
+					if d := c.P.Decls[fn.Origin()]; d != nil && d.Decl.Body != nil && d.Pkg == fi.Pkg {
+						bodies = append(bodies, d.Decl.Body)
+					}
+				}
+			}
+			return true
+		})
+		for _, b := range bodies {
+			ast.Inspect(b, func(n ast.Node) bool {
+				var lb *ast.BlockStmt
+				switch x := n.(type) {
+				case *ast.ForStmt:
+					lb = x.Body
+				case *ast.RangeStmt:
+					lb = x.Body
+				}
+				if lb != nil {
+					ast.Inspect(lb, func(m ast.Node) bool {
+						if _, isSend := m.(*ast.SendStmt); isSend {
+							sendsInLoop = true
+						}
+						return !sendsInLoop
+					})
+				}
+				return true
+			})
+		}
+		run.Oblige(sendsInLoop)
+		if !sendsInLoop {
+			c.violate("reader/deliver", site, "no send in the row loop", fl.Pos(), "the reader's loop no longer sends what it read on its channel: every input yields an empty stream")
+		}
 	}
-	run.Floor("reader_goroutines", 3)
+	run.Floor("reader_goroutines", 4)
 	// (d) ReadFromFile
 	if rf := c.fn("helper", "Csv", "ReadFromFile"); rf != nil {
 		usesWaitable := false
@@ -610,7 +694,7 @@ func (c *Ctx) httpDisciplineIn(info *types.Info, fd *ast.FuncDecl, site string, 
 func CheckC10(c *Ctx) {
 	run := c.Run
 	run.Technique = "typed-AST lints on every implementation of asset.Repository: synchronous consumption and error propagation in Append, finite decision table of the GetSince date filter over the orderings {<,=,>}, zero-time returns carry an error, missing assets are errors"
-	run.Explanation = "Observational equivalence of the three repositories with a map under arbitrary histories depends on the file system, the SQL driver and the codecs and is NOT decided. Decided are structural necessary conditions: (a) every Append consumes its snapshots in the caller's goroutine (no go statement touches the parameter) and returns — not merely logs — the error of each write call, which is necessary for 'an Append that has returned is visible to every later read'; (b) the GetSince filter closures, evaluated on the three orderings of (snapshot date, bound), keep exactly {=, >}, identically in the sibling implementations; (c) LastDate never returns the zero time together with a nil error; (d) Get of an unknown asset returns a non-nil error."
+	run.Explanation = "Observational equivalence of the three repositories with a map under arbitrary histories depends on the file system, the SQL driver and the codecs and is NOT decided. Decided are structural necessary conditions: (a) every Append consumes its snapshots in the caller's goroutine (no go statement touches the parameter) and returns — not merely logs — the error of each write call, which is necessary for 'an Append that has returned is visible to every later read'; (b) the GetSince filter closures, evaluated on the three orderings of (snapshot date, bound), keep exactly {=, >}, identically in the sibling implementations; (c) LastDate never returns the zero time together with a nil error; (d) Get of an unknown asset returns a non-nil error. Also decided, on where values come from: the stream Get returns is helper.SliceToChan of the stored map element itself (in-memory) resp. the CSV reader with a header over the file named after the asset name as it is (file system); LastDate returns the Date of the one element of helper.Last(Get(name), 1); in the SQL repository each method runs the statement prepared from the dialect text of its own name with its parameters in their order, and GetSince scans exactly the columns Append writes."
 	run.Trusted = []string{"go/types", "time.Time.Equal/After/Before semantics", "finite ordering domain"}
 	impls := c.implementers("asset", "Repository")
 	run.Count("repository_implementations", len(impls))
@@ -652,6 +736,8 @@ func CheckC10(c *Ctx) {
 	// an Append that has returned stays visible: the in-memory repository updates its map under the
 	// mutex, each read-modify-write within one critical section
 	c.lockConsistency("asset", "InMemoryRepository", []string{"storage"}, "repository")
+	c.lockPairing("repository/lock", "asset")
+	run.Floor("lock_sites", 3)
 	if get := c.fn("asset", "InMemoryRepository", "Get"); get != nil {
 		// map lookup failure returns a non-nil error
 		good := false
@@ -2022,6 +2108,17 @@ func idxLenCond(info *types.Info, cond ast.Expr, idxText, rec string, I, L int64
 		e = ast.Unparen(e)
 		if k, isC := constInt(info, e); isC {
 			return k, true
+		}
+		// literals of a copied expression (no type information recorded for the copy)
+		if bl, isLit := e.(*ast.BasicLit); isLit && bl.Kind == token.INT {
+			if v, err := strconv.ParseInt(bl.Value, 0, 64); err == nil {
+				return v, true
+			}
+		}
+		if u, isU := e.(*ast.UnaryExpr); isU && u.Op == token.SUB {
+			if v, ok := val(u.X); ok {
+				return -v, true
+			}
 		}
 		if strip.Replace(exprString(e)) == strip.Replace(idxText) {
 			return I, true
